@@ -105,6 +105,39 @@ def check_one(m_abs, trailer: bytes, shared_options: bool = False):
     return out
 
 
+def str_twin(f):
+    """A different filter with the same text form (None vs empty substring parts, present vs part-less substrings,
+    absent vs empty extensible attribute): exposes anything keyed by str(filter)."""
+    k = f[0]
+    if k in ("and", "or"):
+        kids = list(f[1])
+        for i, x in enumerate(kids):
+            t = str_twin(x)
+            if t is not None:
+                kids[i] = t
+                return (k, tuple(kids))
+        return None
+    if k == "not":
+        t = str_twin(f[1])
+        return None if t is None else ("not", t)
+    if k == "sub":
+        _, attr, ini, anys, fin = f
+        if ini is None:
+            return ("sub", attr, b"", anys, fin)
+        if ini == b"":
+            return ("sub", attr, None, anys, fin)
+        if fin is None:
+            return ("sub", attr, ini, anys, b"")
+        if fin == b"":
+            return ("sub", attr, ini, anys, None)
+        return None
+    if k == "present":
+        return ("sub", f[1], None, (), None)
+    if k == "ext" and f[2] in (None, ""):
+        return ("ext", f[1], "" if f[2] is None else None, f[3], f[4])
+    return None
+
+
 TRAILERS = [b"", b"", b"\x30", b"\x30\x03\x02\x01", b"\x00", b"\xff\xff", b"\x30\x84\x00\x00\x00\x05\x02\x01\x01"]
 
 
@@ -123,6 +156,14 @@ def run_shard(ctx: Ctx, acc: Acc):
             acc.nontrivial(m_abs)
         if i < 2:
             acc.sample({"message": m_abs, "trailer": trailer})
+        if m_abs[0] == "SearchRequest" and i % 2:
+            tw = str_twin(m_abs[2][6])
+            if tw is not None:
+                twin = (m_abs[0], m_abs[1], m_abs[2][:6] + (tw,) + m_abs[2][7:], m_abs[3])
+                acc.case()
+                acc.count("string-form-twin-filters")
+                for key, what in check_one(m_abs, b"") + check_one(twin, b""):
+                    acc.violation(key + ":after-its-string-form-twin", what, {"message": twin, "trailer": b"", "before": m_abs})
         shared = (i % 3 == 0)
         acc.count("options:shared" if shared else "options:fresh")
         for key, what in check_one(m_abs, trailer, shared):
@@ -130,4 +171,6 @@ def run_shard(ctx: Ctx, acc: Acc):
 
 
 def replay(w):
+    if w.get("before"):
+        check_one(to_tuple(w["before"]), b"")
     return check_one(to_tuple(w["message"]), bytes(w["trailer"]), bool(w.get("shared_options")))
